@@ -421,6 +421,27 @@ def body(pc):
     return res
 
 
+@st.composite
+def sum_case(draw):
+    """columns that differ only in how 'not known' is written at one taxon (an ambiguity code, a gap, an unknown): they
+    are different patterns whenever ambiguity codes are honoured and must not be merged"""
+    c = draw(phylo.like_case(families=("nucleotide", "general", "general"), nmax=6))
+    n = len(c["cols"][0])
+    if c["family"] == "general" and not c["model"].get("amb_codes") and draw(st.booleans()):
+        c["model"]["amb_codes"] = True
+    if draw(st.booleans()):
+        base = list(draw(st.sampled_from(c["cols"])))
+        i = draw(st.integers(0, n - 1))
+        codes = (["y", "x", "-", "?"] if c["model"].get("amb_codes") else ["-", "?"]) if c["family"] == "general" else ["R", "N", "-", "Y", "?"]
+        variants = draw(st.lists(st.sampled_from(codes), min_size=2, max_size=3, unique=True))
+        for v in variants:
+            col = list(base)
+            col[i] = v
+            c["cols"].append(col)
+        c["tip"] = draw(st.sampled_from(["amb", "amb", c["tip"]]))
+    return c
+
+
 def sum_body(c):
     """the weighted total over patterns equals the sum of single-column likelihoods"""
     m = c["model"]["name"]
@@ -538,6 +559,6 @@ def subchecks(tier):
         Sub("rewrite", body, strategy=pair_case, quick=700, thorough=50000, pretags=pretags),
         Sub("reroot", body, strategy=lambda: pair_case(force="reroot"), quick=250, thorough=20000, pretags=pretags),
         Sub("shared", shared_body, strategy=shared_case, quick=200, thorough=10000),
-        Sub("sum_cols", sum_body, strategy=lambda: phylo.like_case(families=("nucleotide", "general"), nmax=6), quick=80, thorough=1500),
+        Sub("sum_cols", sum_body, strategy=sum_case, quick=120, thorough=3000),
         Sub("all_roots", body, enumerate=_root_cases, expand=expand_root_case, exhaustive=(tier == "thorough"), pretags=pretags),
     ]
